@@ -75,7 +75,21 @@ func c05DocCond(r *rand.Rand, values val.Item) *refmodel.Cond {
 		return refmodel.Operand{Kind: "path", Path: p}
 	}
 	eq := func() string { return mon.Pick(r, []string{"=", "<>"}) }
-	switch r.Intn(24) {
+	switch r.Intn(25) {
+	case 24:
+		// IN with ONE member, of every kind of value a guard reads: a flag, a null marker, a set, a document
+		switch r.Intn(5) {
+		case 0:
+			return &refmodel.Cond{Op: "in", Args: []refmodel.Operand{pt("flags", r.Intn(2)), nv(val.Bool(r.Intn(2) == 0))}}
+		case 1:
+			return &refmodel.Cond{Op: "in", Args: []refmodel.Operand{pt("cfg", "none"), nv(val.Null())}}
+		case 2:
+			return &refmodel.Cond{Op: "in", Args: []refmodel.Operand{pt("slots"), nv(mon.Pick(r, []val.V{val.NS("2", "1.0"), val.NS("1", "3")}))}}
+		case 3:
+			return &refmodel.Cond{Op: "in", Args: []refmodel.Operand{pt("cfg", "tags"), nv(mon.Pick(r, []val.V{val.SS("t2", "t1"), val.SS("t1")}))}}
+		default:
+			return &refmodel.Cond{Op: "in", Args: []refmodel.Operand{pt("meta"), nv(mon.Pick(r, c05Metas))}}
+		}
 	case 21, 22:
 		// whole documents compared: maps and lists of which one is a part of the other (a sub-map, a prefix) are different
 		return &refmodel.Cond{Op: "cmp", Cmp: eq(), Args: []refmodel.Operand{pt("meta"), nv(mon.Pick(r, c05Metas))}}
